@@ -1,7 +1,7 @@
 /-
   C14 — ITS token ids are deterministic, domain-separated, and bind one manager forever.
 -/
-import Axelar.Proofs.ItsMonad
+import Axelar.Proofs.ItsHistory
 namespace Axelar.Props.C14
 open Axelar Axelar.ItsW Axelar.Its Codec
 
@@ -107,48 +107,8 @@ theorem manager_creation (C : Crypto) (cx : ICtx) (tokenId : Bytes) (ty : Nat) (
     t.w.kind addr = none ∧ t'.w.kind addr = some .tokenManager ∧
     ∃ operator tmst evs, (opRaw = [] ∧ operator = none ∨ opRaw.length = 32 ∧ operator = some opRaw) ∧
       TokenManager.init cx.self ty tokenId operator token = .ok (tmst, evs) ∧ t'.w.tms addr = tmst := by
-  simp only [deployTokenManagerRaw, run_bind, run_getI, run_require, run_getW] at h
-  by_cases h0 : (t.w.its.tmAddress tokenId).isEmpty = true
-  · simp only [h0, if_true] at h
-    have hempty : t.w.its.tmAddress tokenId = [] := by simpa using h0
-    -- operator parsing
-    by_cases ho : opRaw.isEmpty = true
-    · simp only [ho, if_true, run_pure] at h
-      by_cases ha : (t.w.newAddrs (cx.self, t.w.nonces cx.self)).isEmpty = true
-      · simp [ha] at h
-      · simp only [ha, Bool.not_false, if_true, Bool.false_eq_true] at h
-        by_cases hk : (t.w.kind (t.w.newAddrs (cx.self, t.w.nonces cx.self))).isNone = true
-        · simp only [hk, if_true] at h
-          cases hi : TokenManager.init cx.self ty tokenId none token with
-          | error e => simp [hi] at h
-          | ok v =>
-            obtain ⟨tmst, evs⟩ := v
-            simp only [hi, run_setW, run_bind, run_getI, run_setI, run_emit, run_pure, modify, modifyGet,
-              MonadStateOf.modifyGet, StateT.modifyGet, Option.some.injEq, Prod.mk.injEq] at h
-            obtain ⟨rfl, rfl⟩ := h
-            refine ⟨hempty, by simpa using ha, by simp [upd], fun id hid => by simp [upd, hid],
-              by simpa using hk, by simp [upd], none, tmst, evs, Or.inl ⟨by simpa using ho, rfl⟩, hi, by simp [upd]⟩
-        · simp [hk] at h
-    · simp only [ho, Bool.false_eq_true, if_false] at h
-      by_cases hl : opRaw.length = 32
-      · simp only [hl, if_true, run_pure] at h
-        by_cases ha : (t.w.newAddrs (cx.self, t.w.nonces cx.self)).isEmpty = true
-        · simp [ha] at h
-        · simp only [ha, Bool.not_false, if_true, Bool.false_eq_true] at h
-          by_cases hk : (t.w.kind (t.w.newAddrs (cx.self, t.w.nonces cx.self))).isNone = true
-          · simp only [hk, if_true] at h
-            cases hi : TokenManager.init cx.self ty tokenId (some opRaw) token with
-            | error e => simp [hi] at h
-            | ok v =>
-              obtain ⟨tmst, evs⟩ := v
-              simp only [hi, run_setW, run_bind, run_getI, run_setI, run_emit, run_pure, modify, modifyGet,
-                MonadStateOf.modifyGet, StateT.modifyGet, Option.some.injEq, Prod.mk.injEq] at h
-              obtain ⟨rfl, rfl⟩ := h
-              refine ⟨hempty, by simpa using ha, by simp [upd], fun id hid => by simp [upd, hid],
-                by simpa using hk, by simp [upd], some opRaw, tmst, evs, Or.inr ⟨hl, rfl⟩, hi, by simp [upd]⟩
-          · simp [hk] at h
-      · simp [hl] at h
-  · simp [h0] at h
+  obtain ⟨h1, h2, h3, h4, h5, h6⟩ := deployTokenManagerRaw_spec C cx tokenId ty token opRaw t t' addr h
+  refine ⟨h1, h2, by rw [h3]; simp [upd], fun id hid => by rw [h3]; simp [upd, hid], h4, h5, h6⟩
 
 /-- the manager's own record of (service, type, id, token) is what `init` was given -/
 theorem init_records_arguments (service : Bytes) (ty : Nat) (tokenId : Bytes) (op tok : Option Bytes)
@@ -170,6 +130,27 @@ theorem custom_registration_forbids_native (C : Crypto) (cx : ICtx) (salt tok : 
     registerCustomTokenRaw C cx salt tok 0 lp t = none := by
   simp only [registerCustomTokenRaw, run_bind, requireNotPaused_run]
   cases t.w.its.paused <;> simp
+
+
+/-! ### Over every schedule -/
+
+/-- **Once set, the binding of a token id to its manager is never replaced** — by any sequence of
+    transactions, deliveries of pending calls, callbacks and environment moves, by any callers,
+    in any order. -/
+theorem binding_is_forever (C : Crypto) (w : World) (ops : List World.Op) (id : Bytes)
+    (h : w.its.tmAddress id ≠ []) : (World.run C w ops).its.tmAddress id = w.its.tmAddress id :=
+  World.run_binding C ops w id h
+
+/-- **The inputs of the id derivations that live in storage (chain name and its hash) are never
+    written after `init`**, so the same deployer / salt / token give the same id at every point of
+    every history. -/
+theorem ids_are_stable_over_histories (C : Crypto) (w : World) (ops : List World.Op) (d s tok : Bytes) :
+    interchainTokenId C (World.run C w ops).its d s = interchainTokenId C w.its d s ∧
+    linkedTokenId C (World.run C w ops).its d s = linkedTokenId C w.its d s ∧
+    canonicalTokenId C (World.run C w ops).its tok = canonicalTokenId C w.its tok := by
+  have h := (World.run_config C ops w).chainNameHash
+  simp only [interchainTokenId, linkedTokenId, canonicalTokenId, interchainTokenDeploySalt, linkedDeploySalt,
+    canonicalDeploySalt, h, and_self]
 
 /-! ### Non-vacuity (test) -/
 example : tokenIdRaw ⟨fun x => x.take 1, fun _ _ _ => true⟩ [5] ≠ [] := by decide
